@@ -318,7 +318,7 @@ package openapi3
 
 //@ spec scopeC01(s *Schema, st *schemaValidationSettings) bool :=
 //@     s.Format == "" && !st.patternValidationDisabled && st.regexCompiler == nil
-//@  && !st.asreq && !st.asrep && s.Discriminator == nil
+//@  && !st.asreq && !st.asrep && st.defaultsSet == nil && s.Discriminator == nil
 //@  && (s.Not != nil ==> s.Not.Value != nil) && (s.Items != nil ==> s.Items.Value != nil)
 //@  && resolvedProps(s)
 //@  && (s.AdditionalProperties.Schema != nil ==> s.AdditionalProperties.Schema.Value != nil)
